@@ -28,7 +28,11 @@ Definition all4 (f:bool -> bool -> bool -> bool -> bool) : bool :=
   forallb (fun k => forallb (fun v => forallb (fun u => forallb (fun n => f k v u n) bools) bools) bools) bools.
 
 (* C18 *)
-Definition monitor_C18 (o:obs17) : bool :=
+(* strict = the lists are wire positions: with the ordering rule disabled they must be 0, 1, 2, ... (every wire attribute
+   returned). The same relations are required of the DECODED VALUES: monitor_C18val runs on observations in which every
+   position is combined with a digest of the decoded attribute value (position * 2^32 + digest), so that "the same message"
+   means the same attributes with the same values, not only the same positions. *)
+Definition monitor_C18_gen (strict:bool) (o:obs17) : bool :=
   (* a decoder built without a context behaves like one built with the default context *)
   ores_eqb (o_none o) (o_cfg o false false false false) &&
   all4 (fun k v u n =>
@@ -42,12 +46,14 @@ Definition monitor_C18 (o:obs17) : bool :=
     (* the ordering rule only filters: with it disabled every wire attribute is returned, in order, and the default
        result is a subsequence; without validation both succeed together *)
     (if n then match r with
-               | OOkR s all => posl_eqb all (iota (length all) 0) &&
+               | OOkR s all => (negb strict || posl_eqb all (iota (length all) 0)) &&
                                (if v then match o_cfg o k v u false with OOkR s' sub => (s =? s') && subseq sub all | _ => true end
                                 else match o_cfg o k v u false with OOkR s' sub => (s =? s') && subseq sub all | _ => false end)
                | OErrR => if v then true else ores_eqb (o_cfg o k v u false) OErrR
                | OBad => false end
      else true)).
+Definition monitor_C18 (o:obs17) : bool := monitor_C18_gen true o.
+Definition monitor_C18val (o:obs17) : bool := monitor_C18_gen false o.
 
 (* C03 (decoder part): a message or an error, never a panic; on success the size is 20 + the header length field and
    does not exceed the input *)
